@@ -155,6 +155,20 @@ Example cjd_split_example :
   create_joint_distribution nat 0 Nat.mul (fun n => n) (fun n => n) 1 (fun _ _ => None) [va] [1%positive] p cjd_coll = Err ValueError.
 Proof. repeat split; vm_compute; reflexivity. Qed.
 
+(* rvs=None with one fixed parameter (22): the selection is [a; c], in collection order; covariance_matrix of an
+   IOV "SAME" structure (two occasions sharing the symbols 31, 32, 33) is the block-diagonal composition *)
+Example cjd_default_example :
+  default_rvs (fun x => Pos.eqb x 22) cjd_coll = [va; vc] /\
+  create_joint_distribution_default nat 0 Nat.mul (fun n => n) (fun n => n) 1 (fun _ _ => None) (fun x => Pos.eqb x 22)
+    [1%positive; 3%positive] [(21%positive, 4); (22%positive, 9); (23%positive, 16)] cjd_coll =
+  create_joint_distribution nat 0 Nat.mul (fun n => n) (fun n => n) 1 (fun _ _ => None) [va; vc]
+    [1%positive; 3%positive] [(21%positive, 4); (22%positive, 9); (23%positive, 16)] cjd_coll /\
+  let V := [[Some 31%positive; Some 32%positive]; [Some 32%positive; Some 33%positive]] in
+  covariance_matrix sym None [Joint [va; vb] L_IOV [None; None] V; Joint [vc; vd] L_IOV [None; None] V] =
+  [[Some 31; Some 32; None; None]; [Some 32; Some 33; None; None];
+   [None; None; Some 31; Some 32]; [None; None; Some 32; Some 33]]%positive.
+Proof. repeat split; vm_compute; reflexivity. Qed.
+
 (* ---- numeric side: the hypotheses of the real-number theorems are satisfiable ------------------- *)
 (* the verified PSD checker accepts a singular PSD matrix and a PD one with a negative covariance, and
    rejects an indefinite and a non-symmetric one *)
